@@ -12,4 +12,7 @@ timeout 3000 make -j16 > ../.cache/coq_build.log 2>&1 || { tail -30 ../.cache/co
 cd ../harness
 cp /repo/Cargo.lock Cargo.lock
 RUSTFLAGS="--cfg oxmpl_verif" CARGO_TARGET_DIR=../.cache/target cargo build --release --offline 2>&1 | tail -3
+cd /repo
+CARGO_TARGET_DIR=/verif/.cache/pytarget cargo build -p oxmpl-py --release --offline 2>&1 | tail -2
+mkdir -p /verif/.cache/py && cp /verif/.cache/pytarget/release/liboxmpl_py.so /verif/.cache/py/oxmpl_py.so
 echo "setup done"
